@@ -50,6 +50,7 @@ ASSUMPTIONS = [
 TOL_P = 1e-10
 TOL_P_SINGLE = 1e-9
 TOL_Q = 1e-11
+SUSPECT = 1e-7  # scipy's expm is audited to 1e-12; larger differences need no second opinion
 AA = "torchtree.evolution.substitution_model.amino_acid."
 PARAM_FREE = ("JC69", "GeneralJC69", "LG", "WAG")
 REVERSIBLE = ("JC69", "HKY", "GTR", "GeneralJC69", "GeneralSymmetric", "LG", "WAG", "MG94")
@@ -492,7 +493,7 @@ def body(c):
             ref = rm.p_t(Qn, t)
             err = maxabs(Pij, ref)
             worst = max(worst, err)
-            if not err <= tolP:
+            if tolP < err <= SUSPECT:  # too small to be a gross error: let multiple precision decide
                 ref = _reference(Qn, pi, t, model in REVERSIBLE, ref)
                 err = maxabs(Pij, ref)
             if not err <= tolP:
@@ -513,7 +514,7 @@ def body(c):
             return res.fail("semigroup", dict(d, s=s1, u=s2, err=e3))
         for j, tv in enumerate((s1, s2, s1 + s2)):
             e = maxabs(Ptri[i, j], rm.p_t(Qn, tv))
-            if not e <= TOL_P:
+            if TOL_P < e <= SUSPECT:
                 e = maxabs(Ptri[i, j], _reference(Qn, pi, tv, model in REVERSIBLE, rm.p_t(Qn, tv)))
             if not e <= TOL_P:
                 return res.fail("mismatch", dict(d, t=tv, err=e, what="semigroup triple"), tband=_band(tv, [1e-4, 1e-1, 10], ["<1e-4", "<1e-1", "<10", ">=10"]))
